@@ -565,8 +565,8 @@ Outcome WSession::call(const Op &op) {
             break;
         }
         // op.c == -1 on an empty value: it has no storage, the caller passes a NULL pointer with length 0 (an empty std::vector's data())
-        case W_STRING_LEN: { const uint8_t *src = alias_src(op.b, hdr_of(op.b.size())); if (!src) { mkarg(op.b, false); src = arg.p; } if (op.c == -1 && op.b.empty()) { src = nullptr; bump(cnt, "probe.write_empty_value_from_null_pointer"); } LIB(o.ret = binson_write_string_with_len(w, (const char *)src, op.b.size())); break; }
-        case W_BYTES: { const uint8_t *src = alias_src(op.b, hdr_of(op.b.size())); if (!src) { mkarg(op.b, false); src = arg.p; } if (op.c == -1 && op.b.empty()) { src = nullptr; bump(cnt, "probe.write_empty_value_from_null_pointer"); } LIB(o.ret = binson_write_bytes(w, src, op.b.size())); break; }
+        case W_STRING_LEN: { const uint8_t *src = alias_src(op.b, hdr_of(op.b.size())); if (!src) { mkarg(op.b, false); src = arg.p; } if (op.c == -1 && op.b.empty()) { src = nullptr; bump(cnt, "probe.write_empty_value_from_null_pointer"); } if (op.a > 0) bump(cnt, "probe.write_length_beyond_format_limit"); LIB(o.ret = binson_write_string_with_len(w, (const char *)src, op.b.size() + (op.a > 0 ? (size_t)op.a * 0x80000000ULL : 0))); break; }
+        case W_BYTES: { const uint8_t *src = alias_src(op.b, hdr_of(op.b.size())); if (!src) { mkarg(op.b, false); src = arg.p; } if (op.c == -1 && op.b.empty()) { src = nullptr; bump(cnt, "probe.write_empty_value_from_null_pointer"); } if (op.a > 0) bump(cnt, "probe.write_length_beyond_format_limit"); LIB(o.ret = binson_write_bytes(w, src, op.b.size() + (op.a > 0 ? (size_t)op.a * 0x80000000ULL : 0))); break; }
         case W_RAW: { const uint8_t *src = alias_src(op.b, 0); if (!src) { mkarg(op.b, false); src = arg.p; } LIB(o.ret = binson_write_raw(w, src, op.b.size())); break; }
         case W_VERIFY:
             if (err() != 0 || counter() > cap) { o.skipped = true; break; }
